@@ -19,7 +19,7 @@ from pathlib import Path
 
 VERIF = Path(__file__).resolve().parent.parent
 REPO = Path(os.environ.get("VERIF_REPO", "/repo"))
-WORK = VERIF / "work"
+WORK = Path(os.environ.get("VERIF_WORK", str(VERIF / "work")))   # scratch; override to run the same check twice at once
 COQ = VERIF / "coq"
 PY = os.environ.get("VERIF_PY", "/venv/bin/python")
 NCPU = os.cpu_count() or 4
@@ -296,7 +296,7 @@ def impl_env(jit=True):
     env["PYTHONPATH"] = f"{REPO}:{VERIF}"
     env["PYTHONHASHSEED"] = "0"
     env["DISTANCE3D_VERIF"] = "1"
-    env["NUMBA_CACHE_DIR"] = str(WORK / ("numba_cache" if jit else "numba_cache_nojit"))
+    env["NUMBA_CACHE_DIR"] = str(VERIF / "work" / ("numba_cache" if jit else "numba_cache_nojit"))
     env["OMP_NUM_THREADS"] = "1"
     env["OPENBLAS_NUM_THREADS"] = "1"
     env["NUMBA_NUM_THREADS"] = "1"
